@@ -277,9 +277,16 @@ class ServerSet(object):
     ChildrenWatch(self._zk, self._zk_path, self._on_set_changed)
 
   def _send_all_removed(self):
-    for k in self._members.keys():
-      member = self._members.pop(k)
-      self._on_leave(member)
+    members = self._members
+    self._members = {}
+    # Forget the children seen so far: members that reappear under a re-created
+    # path have to be announced again.
+    self._nodes = set()
+    for member in members.values():
+      try:
+        self._on_leave(member)
+      except Exception:
+        self._log.exception('Error in OnLeave callback.')
 
   def _notification_worker(self):
     """'Atomically' raise notifications for join / leave.
